@@ -189,9 +189,15 @@ RayCasting<Scalar, DIM>::cast(const PointType & originPoint, const PointType & e
 template<>
 void RayCasting<float, 2>::next(CellIndexes & cellIndexes)
 {
+  // an axis on which the end cell has been reached is never stepped again, so that the ray
+  // always ends in the cell of the end point whatever rounding does to the crossing parameters
+  const float tMax0 = cellIndexes[0] == rayEndIndexes_[0] ?
+    std::numeric_limits<float>::max() : rayTMax_[0];
+  const float tMax1 = cellIndexes[1] == rayEndIndexes_[1] ?
+    std::numeric_limits<float>::max() : rayTMax_[1];
   // find minimum rayTMax_
   // increment current position
-  if (rayTMax_[0] < rayTMax_[1]) {
+  if (tMax0 < tMax1) {
     cellIndexes[0] += rayStep_[0];
     rayTMax_[0] += rayTDelta_[0];
   } else {
@@ -203,9 +209,15 @@ void RayCasting<float, 2>::next(CellIndexes & cellIndexes)
 template<>
 void RayCasting<double, 2>::next(CellIndexes & cellIndexes)
 {
+  // an axis on which the end cell has been reached is never stepped again, so that the ray
+  // always ends in the cell of the end point whatever rounding does to the crossing parameters
+  const double tMax0 = cellIndexes[0] == rayEndIndexes_[0] ?
+    std::numeric_limits<double>::max() : rayTMax_[0];
+  const double tMax1 = cellIndexes[1] == rayEndIndexes_[1] ?
+    std::numeric_limits<double>::max() : rayTMax_[1];
   // find minimum rayTMax_
   // increment current position
-  if (rayTMax_[0] < rayTMax_[1]) {
+  if (tMax0 < tMax1) {
     cellIndexes[0] += rayStep_[0];
     rayTMax_[0] += rayTDelta_[0];
   } else {
@@ -217,9 +229,17 @@ void RayCasting<double, 2>::next(CellIndexes & cellIndexes)
 template<>
 void RayCasting<float, 3>::next(CellIndexes & cellIndexes)
 {
+  // an axis on which the end cell has been reached is never stepped again, so that the ray
+  // always ends in the cell of the end point whatever rounding does to the crossing parameters
+  const float tMax0 = cellIndexes[0] == rayEndIndexes_[0] ?
+    std::numeric_limits<float>::max() : rayTMax_[0];
+  const float tMax1 = cellIndexes[1] == rayEndIndexes_[1] ?
+    std::numeric_limits<float>::max() : rayTMax_[1];
+  const float tMax2 = cellIndexes[2] == rayEndIndexes_[2] ?
+    std::numeric_limits<float>::max() : rayTMax_[2];
   // find minimum tMax:
-  if (rayTMax_[0] < rayTMax_[1]) {
-    if (rayTMax_[0] < rayTMax_[2]) {
+  if (tMax0 < tMax1) {
+    if (tMax0 < tMax2) {
       cellIndexes[0] += rayStep_[0];
       rayTMax_[0] += rayTDelta_[0];
     } else {
@@ -227,7 +247,7 @@ void RayCasting<float, 3>::next(CellIndexes & cellIndexes)
       rayTMax_[2] += rayTDelta_[2];
     }
   } else {
-    if (rayTMax_[1] < rayTMax_[2]) {
+    if (tMax1 < tMax2) {
       cellIndexes[1] += rayStep_[1];
       rayTMax_[1] += rayTDelta_[1];
     } else {
@@ -240,9 +260,17 @@ void RayCasting<float, 3>::next(CellIndexes & cellIndexes)
 template<>
 void RayCasting<double, 3>::next(CellIndexes & cellIndexes)
 {
+  // an axis on which the end cell has been reached is never stepped again, so that the ray
+  // always ends in the cell of the end point whatever rounding does to the crossing parameters
+  const double tMax0 = cellIndexes[0] == rayEndIndexes_[0] ?
+    std::numeric_limits<double>::max() : rayTMax_[0];
+  const double tMax1 = cellIndexes[1] == rayEndIndexes_[1] ?
+    std::numeric_limits<double>::max() : rayTMax_[1];
+  const double tMax2 = cellIndexes[2] == rayEndIndexes_[2] ?
+    std::numeric_limits<double>::max() : rayTMax_[2];
   // find minimum tMax:
-  if (rayTMax_[0] < rayTMax_[1]) {
-    if (rayTMax_[0] < rayTMax_[2]) {
+  if (tMax0 < tMax1) {
+    if (tMax0 < tMax2) {
       cellIndexes[0] += rayStep_[0];
       rayTMax_[0] += rayTDelta_[0];
     } else {
@@ -250,7 +278,7 @@ void RayCasting<double, 3>::next(CellIndexes & cellIndexes)
       rayTMax_[2] += rayTDelta_[2];
     }
   } else {
-    if (rayTMax_[1] < rayTMax_[2]) {
+    if (tMax1 < tMax2) {
       cellIndexes[1] += rayStep_[1];
       rayTMax_[1] += rayTDelta_[1];
     } else {
